@@ -1,5 +1,324 @@
 import Driver.Proto
+import TonicModel.Model.Codegen
+import TonicModel.Model.Router
+import TonicModel.Spec.Codegen
+import TonicModel.Spec.Router
+/-
+C11 driver.  Case lines (`-` = empty string; flags are 0/1; sides = both|client|server):
+  gen <emit_package> <arc_self> <default_stubs> <transport> <sides> <pkg> <name> <ident> <n> { <fn> <ident> <cs> <ss> <in> <out> }^n
+      real `CodeGenBuilder::generate_client/_server` on a hand-made `tonic_build::Service`
+  manual <transport> <sides> <pkg> <name> <n> { <fn> <route> <cs> <ss> <in> <out> }^n
+      real `tonic_build::manual::Builder::compile`
+  prost <emit_package> <arc_self> <default_stubs> <sides> <pkg> <service> <n> { <method> <cs> <ss> <inMsg> <outMsg> }^n
+      real `tonic_build::configure()…compile_fds` on a FileDescriptorSet built by the harness
+  e2e <api> <wrap> <n> { <idx> <pkg> <name> <k> { <route> <kind> }^k }^n target <idx> <pkg> <name> <k> { <route> <kind> }^k <j> <len>
+      compiled generated client of pool service `target`, method j, against a router holding
+      the compiled generated servers of the listed pool services
+  regen
+      run the real `codegen` binary on a scratch copy and byte-compare with the committed files
+Observed / model line for gen|manual|prost:
+  name <SERVICE_NAME> <NamedService::NAME> on <match scrutinee> default <code of the `_` arm>
+  server <n> { <literal> <grpc call> <trait> <reqStream> <respStream> <req> <resp> <fn> }^n
+  client <n> { <fn> <path> <GrpcMethod svc> <GrpcMethod method> <grpc call> <reqStream> <respStream> <req> <resp> }^n
+(an absent side is `server -` / `client -`, and then `name - - on - default -`).
+-/
 namespace DriverC11
-/-- stub: property not yet claimed -/
-def handle (_case _obs : List String) : String × String := ("unclaimed", "fail:unclaimed")
+open Proto Codegen
+
+def b (s : String) : Bytes := if s == "-" then [] else s.toUTF8.toList
+
+def sh (x : Bytes) : String :=
+  if x.isEmpty then "-" else
+  match String.fromUTF8? (ByteArray.mk x.toArray) with
+  | some s => s
+  | none => hex x
+
+def flag? (s : String) : Option Bool := if s == "1" then some true else if s == "0" then some false else none
+def showFlag (x : Bool) : String := if x then "1" else "0"
+
+def callTok : Call → String
+  | .unary => "unary" | .serverStreaming => "server_streaming"
+  | .clientStreaming => "client_streaming" | .streaming => "streaming"
+
+def traitTok : SvcTrait → String
+  | .unaryService => "UnaryService" | .serverStreamingService => "ServerStreamingService"
+  | .clientStreamingService => "ClientStreamingService" | .streamingService => "StreamingService"
+
+def callNum? (s : String) : Option Nat :=
+  match s with
+  | "unary" => some 0 | "server_streaming" => some 1 | "client_streaming" => some 2
+  | "streaming" => some 3 | _ => none
+
+def traitNum? (s : String) : Option Nat :=
+  match s with
+  | "UnaryService" => some 0 | "ServerStreamingService" => some 1
+  | "ClientStreamingService" => some 2 | "StreamingService" => some 3 | _ => none
+
+/-- `n` method blocks of `w` tokens each. -/
+def blocks (w : Nat) : Nat → List String → Option (List (List String) × List String)
+  | 0, rest => some ([], rest)
+  | n + 1, rest =>
+    if rest.length < w then none
+    else match blocks w n (rest.drop w) with
+      | some (bs, r) => some (rest.take w :: bs, r)
+      | none => none
+
+structure Job where
+  svc : Service
+  opts : Opts
+  client : Bool
+  server : Bool
+  /-- Rust-side fn names are predictable (not the case for prost's identifier mangling) -/
+  fnKnown : Bool
+
+def method6 : List String → Option Method
+  | [fn, ident, cs, ss, i, o] =>
+    match flag? cs, flag? ss with
+    | some cs, some ss => some ⟨b fn, b ident, cs, ss, b i, b o⟩
+    | _, _ => none
+  | _ => none
+
+def sides? (s : String) : Option (Bool × Bool) :=
+  match s with
+  | "both" => some (true, true) | "client" => some (true, false) | "server" => some (false, true)
+  | _ => none
+
+def parseJob : List String → Option Job
+  | "gen" :: emit :: _arc :: _stubs :: _tr :: sides :: pkg :: name :: ident :: n :: rest => do
+    let emit ← flag? emit
+    let (c, s) ← sides? sides
+    let n ← nat? n
+    let (bl, r) ← blocks 6 n rest
+    if !r.isEmpty then none
+    let ms ← bl.mapM method6
+    some ⟨⟨b name, b pkg, b ident, ms⟩, ⟨emit⟩, c, s, true⟩
+  | "manual" :: _tr :: sides :: pkg :: name :: n :: rest => do
+    let (c, s) ← sides? sides
+    let n ← nat? n
+    let (bl, r) ← blocks 6 n rest
+    if !r.isEmpty then none
+    let ms ← bl.mapM method6
+    -- manual::Service: identifier = name, emit_package(true)
+    some ⟨⟨b name, b pkg, b name, ms⟩, ⟨true⟩, c, s, true⟩
+  | "prost" :: emit :: _arc :: _stubs :: sides :: pkg :: svc :: n :: rest => do
+    let emit ← flag? emit
+    let (c, s) ← sides? sides
+    let n ← nat? n
+    let (bl, r) ← blocks 5 n rest
+    if !r.isEmpty then none
+    let ms ← bl.mapM (fun
+      | [m, cs, ss, i, o] => do
+        let cs ← flag? cs
+        let ss ← flag? ss
+        -- prost.rs request_response_name: `<proto_path>::<RustType>`, proto_path = "super"
+        some (⟨[], b m, cs, ss, b ("super::" ++ i), b ("super::" ++ o)⟩ : Method)
+      | _ => none)
+    some ⟨⟨[], b pkg, b svc, ms⟩, ⟨emit⟩, c, s, false⟩
+  | _ => none
+
+def renderJob (j : Job) : String :=
+  let fnTok (x : Bytes) : String := if j.fnKnown then sh x else "="
+  let head :=
+    if j.server then
+      s!"name {sh (serviceNameConst j.svc j.opts)} {sh (serviceNameConst j.svc j.opts)} on req.uri().path() default Unimplemented"
+    else "name - - on - default -"
+  let server :=
+    if j.server then
+      let arms := serverArms j.svc j.opts
+      String.intercalate " " (s!"server {arms.length}" :: arms.map (fun a =>
+        s!"{sh a.literal} {callTok a.call} {traitTok a.svcTrait} {showFlag a.reqStream} {showFlag a.respStream} {sh a.req} {sh a.resp} {fnTok a.fn}"))
+    else "server -"
+  let client :=
+    if j.client then
+      let cs := clientCalls j.svc j.opts
+      String.intercalate " " (s!"client {cs.length}" :: cs.map (fun c =>
+        s!"{fnTok c.fn} {sh c.path} {sh c.gmService} {sh c.gmMethod} {callTok c.call} {showFlag c.reqStream} {showFlag c.respStream} {sh c.req} {sh c.resp}"))
+    else "client -"
+  s!"{head} {server} {client}"
+
+/- ---- parsing the observed line into the spec's vocabulary ---- -/
+
+def serverObs? : List String → Option Spec.Codegen.ServerObs
+  | [lit, call, tr, rq, rs, req, resp, _fn] => do
+    some ⟨b lit, ← callNum? call, ← traitNum? tr, ← flag? rq, ← flag? rs, b req, b resp⟩
+  | _ => none
+
+def clientObs? : List String → Option Spec.Codegen.ClientObs
+  | [_fn, path, gs, gm, call, rq, rs, req, resp] => do
+    some ⟨b path, b gs, b gm, ← callNum? call, ← flag? rq, ← flag? rs, b req, b resp⟩
+  | _ => none
+
+structure Seen where
+  serviceName : Option Bytes
+  namedName : Option Bytes
+  scrutinee : String
+  default : String
+  server : Option (List Spec.Codegen.ServerObs)
+  serverFns : List String
+  client : Option (List Spec.Codegen.ClientObs)
+  clientFns : List String
+
+def parseSide (w : Nat) : List String → Option (Option (List (List String)) × List String)
+  | "-" :: rest => some (none, rest)
+  | n :: rest => do
+    let n ← nat? n
+    let (bl, r) ← blocks w n rest
+    some (some bl, r)
+  | [] => none
+
+def parseSeen : List String → Option Seen
+  | "name" :: sn :: nn :: "on" :: scr :: "default" :: d :: "server" :: rest => do
+    let (sb, rest) ← parseSide 8 rest
+    match rest with
+    | "client" :: rest =>
+      let (cb, rest) ← parseSide 9 rest
+      if !rest.isEmpty then none
+      let server ← match sb with
+        | some bl => (bl.mapM serverObs?).map some
+        | none => some none
+      let client ← match cb with
+        | some bl => (bl.mapM clientObs?).map some
+        | none => some none
+      let opt (s : String) : Option Bytes := if s == "-" then none else some (b s)
+      some ⟨opt sn, opt nn, scr, d, server, (sb.getD []).map (fun l => l.getLast!),
+            client, (cb.getD []).map (fun l => l.head!)⟩
+    | _ => none
+  | _ => none
+
+def specDef (s : Service) : Spec.Codegen.ServiceDef :=
+  ⟨s.package, s.ident, s.methods.map (fun m => ⟨m.ident, m.clientStreaming, m.serverStreaming, m.input, m.output⟩)⟩
+
+def judge (j : Job) (obs : List String) : String :=
+  match parseSeen obs with
+  | none => "fail:generator-output-not-understood"
+  | some o =>
+    let d := specDef j.svc
+    let pkgShown := if j.opts.emitPackage then j.svc.package else []
+    let svc := Spec.Codegen.fullName pkgShown d.ident
+    verdict [
+      ("requested-sides-generated", o.client.isSome == j.client && o.server.isSome == j.server),
+      ("service-name-is-path-prefix", !j.server || (o.serviceName == some svc && o.namedName == some svc)),
+      ("client-sends-to-/package.Service/Method-with-declared-shape-and-types",
+        match o.client with | some cs => Spec.Codegen.all₂ (Spec.Codegen.clientOk svc) d.methods cs | none => true),
+      ("server-dispatches-on-/package.Service/Method-with-declared-shape-and-types",
+        match o.server with | some ss => Spec.Codegen.all₂ (Spec.Codegen.serverOk svc) d.methods ss | none => true),
+      ("client-and-server-agree",
+        match o.client, o.server with
+        | some cs, some ss => Spec.Codegen.sidesAgree cs ss && o.clientFns == o.serverFns
+        | _, _ => true),
+      ("server-matches-on-the-request-path", !j.server || o.scrutinee == "req.uri().path()"),
+      ("unknown-path-is-unimplemented", !j.server || o.default == "Unimplemented"),
+      ("conforms", Spec.Codegen.conforms pkgShown d (if j.server then o.serviceName else none) o.client o.server)]
+
+/- ---- end-to-end through compiled generated code ---- -/
+
+structure PoolSvc where
+  idx : Nat
+  pkg : Bytes
+  name : Bytes
+  methods : List (Bytes × Nat)   -- route, kind
+
+def poolSvc? : List String → Option (PoolSvc × List String)
+  | idx :: pkg :: name :: k :: rest => do
+    let idx ← nat? idx
+    let k ← nat? k
+    let (bl, r) ← blocks 2 k rest
+    let ms ← bl.mapM (fun | [r, kd] => (nat? kd).map (fun kd => (b r, kd)) | _ => none)
+    some (⟨idx, b pkg, b name, ms⟩, r)
+  | _ => none
+
+def poolSvcs : Nat → List String → Option (List PoolSvc × List String)
+  | 0, rest => some ([], rest)
+  | n + 1, rest => do
+    let (s, r) ← poolSvc? rest
+    let (ss, r) ← poolSvcs n r
+    some (s :: ss, r)
+
+def PoolSvc.desc (p : PoolSvc) : Service :=
+  ⟨p.name, p.pkg, p.name, p.methods.map (fun (r, kd) => ⟨[], r, kd == 2 || kd == 3, kd == 1 || kd == 3, [], []⟩)⟩
+
+def values (idx j kind payload : Nat) : String :=
+  let code := idx * 10000 + j * 100 + min payload 99
+  if kind == 1 || kind == 3 then s!"ok {code} {code + 1000000}" else s!"ok {code}"
+
+def findIdx {α} (p : α → Bool) : List α → Nat → Option (Nat × α)
+  | [], _ => none
+  | x :: xs, i => if p x then some (i, x) else findIdx p xs (i + 1)
+
+def handleE2e (rest obs : List String) : String × String :=
+  match rest with
+  | _api :: _wrap :: n :: rest =>
+    match nat? n with
+    | none => bad
+    | some n =>
+      match poolSvcs n rest with
+      | some (reg, "target" :: rest) =>
+        match poolSvc? rest with
+        | some (t, [j, len]) =>
+          match nat? j, nat? len with
+          | some j, some len =>
+            match t.methods[j]? with
+            | none => bad
+            | some (route, ckind) =>
+              let o : Opts := ⟨true⟩
+              -- the generated client's path for method j …
+              let path := (clientCalls t.desc o).map (·.path) |>.getD j []
+              -- … routed among the generated servers (C10's router, fed with NAME + arm idents)
+              let rreg : List Router.Svc := reg.map (fun p => ⟨serviceNameConst p.desc o, p.desc.methods.map (·.ident)⟩)
+              let nreq := if ckind == 2 || ckind == 3 then 2 else 1
+              let model :=
+                match Router.dispatch rreg path with
+                | .handler s m =>
+                  match reg.find? (fun p => serviceNameConst p.desc o == s) with
+                  | some p =>
+                    match findIdx (fun rm => rm.1 == m) p.methods 0 with
+                    | some (mj, (_, skind)) => s!"hit {sh s} {sh m} {nreq} {values p.idx mj skind (len * nreq)}"
+                    | none => "model-error"
+                  | none => "model-error"
+                | .panic => "panic"
+                | _ => "hit - - - err 12"
+              -- spec, without the model: the call must reach exactly (Service-Name of target, method j)
+              -- when the target is registered, and be UNIMPLEMENTED otherwise
+              let want := Spec.Codegen.fullName t.pkg t.name
+              let registered := reg.any (fun p => p.idx == t.idx)
+              let dup := Router.hasDup (reg.map (fun p => Spec.Codegen.fullName p.pkg p.name))
+              let v :=
+                if dup then "ok" else
+                if registered then
+                  match obs with
+                  | "hit" :: s :: m :: nr :: "ok" :: vals =>
+                    verdict [("call-reaches-the-named-method", b s == want && b m == route),
+                             ("request-stream-shape", nr == toString nreq),
+                             ("response-values", String.intercalate " " ("ok" :: vals) == values t.idx j ckind (len * nreq))]
+                  | _ => "fail:call-did-not-reach-the-named-method"
+                else verdict [("unregistered-is-unimplemented", obs == ["hit", "-", "-", "-", "err", "12"])]
+              (model, v)
+          | _, _ => bad
+        | _ => bad
+      | _ => bad
+  | _ => bad
+
+/-- The files the property names (and the descriptor-set files the same run writes). -/
+def committed : List String :=
+  ["tonic-health/grpc_health_v1.rs", "tonic-health/grpc_health_v1_fds.rs",
+   "tonic-reflection/grpc_reflection_v1.rs", "tonic-reflection/grpc_reflection_v1alpha.rs",
+   "tonic-reflection/reflection_v1_fds.rs", "tonic-reflection/reflection_v1alpha1_fds.rs",
+   "tonic-types/google_rpc.rs", "tonic-types/types_fds.rs"]
+
+def handle (case obs : List String) : String × String :=
+  match case with
+  | ["regen"] =>
+    let model := String.intercalate " " (s!"files {committed.length}" :: committed.map (· ++ "=same"))
+    let v := match obs with
+      | "files" :: _n :: fs =>
+        verdict [("committed-generated-files-are-the-generator-output",
+                   fs.all (fun f => f.endsWith "=same") && committed.all (fun c => fs.contains (c ++ "=same")))]
+      | _ => "fail:regeneration-did-not-run"
+    (model, v)
+  | "e2e" :: rest => handleE2e rest obs
+  | _ =>
+    match parseJob case with
+    | some j => (renderJob j, judge j obs)
+    | none => bad
+
 end DriverC11
